@@ -105,6 +105,8 @@ class G:
                 elif self.rng.random() < 0.92 or items[-1].get('t') == 'imath':
                     items.append(self.ws())          # (two adjacent formulas would read `$$`)
             items.append(self.item(allow_par, ctx))
+            if items[-1].get('t') == 'word' and self.p('punct', False) and self.rng.random() < 0.2:
+                items.append({'t': 'rawword', 'w': self.rng.choice(['.', ':', ',', ';', '!', '?'])})
         return {'t': 'seq', 'items': items}
 
     def item(self, allow_par=True, ctx='text'):
